@@ -14,7 +14,7 @@ from common import Rng, REPO, VERIF
 
 PID = "C12"
 NAMES = ["check_image", "allocations", "references", "forward_buckets", "backward_buckets", "character_records",
-         "cell_records", "forward_pass_chains", "backward_pass_chains", "every_rule_is_linked"]
+         "cell_records", "forward_pass_chains", "backward_pass_chains", "every_rule_is_linked", "multipass_program_bounds"]
 
 
 def to_model(line):
@@ -57,6 +57,8 @@ def to_model(line):
             out.append("IQ %s %s" % (w[1], elems(w[2:], False)))
         elif w[0] == "RU":
             out.append("IU " + " ".join(w[1:7]))
+        elif w[0] == "BND":
+            out.append("IV %s %s" % (w[1], w[2]))
         elif w[0] == "CYCLE":
             out.append("IR 999999 1 0")
     out.append("IX %s" % head["used"])
@@ -130,7 +132,8 @@ def run(chk):
         chk.tally("allocations_checked", n_alloc)
         chk.tally("references_checked", sum(1 for x in ml if x.startswith("IR")))
         chk.tally("rule_objects_checked", sum(1 for x in ml if x.startswith("IU")))
-        if res[0] == "1" and res[-1] == "1":
+        chk.tally("program_bounds_checked", sum(1 for x in ml if x.startswith("IV")))
+        if res[0] == "1" and res[-1] == "1" and res[-2] == "1":
             chk.cov["traces_validated_against_impl"] += 1
             if n_alloc > 50:
                 chk.sample(dict(table=key, used_bytes=int(head["used"]), allocations=n_alloc, references=sum(1 for x in ml if x.startswith("IR"))), cap=4)
